@@ -43,7 +43,7 @@ def check(ctx):
     for n in range(2, 5):
         for x in itertools.product(alpha, repeat=n):
             lines += calls_for(list(x))
-    for i in range(2000 if ctx.thorough else 300):
+    for i in range(20000 if ctx.thorough else 300):
         lines += calls_for([rng.randrange(256) for _ in range(rng.choice([1, 2, 3, 4, 5, 6, 7, 30, 31, 32, 33, 200]))])
     # base64 of inputs beyond 2^16 bytes and beyond 2^16 three-byte groups (judged by the position-by-position form of the definition)
     for n in ([65535, 65536, 65537, 196607, 196608, 196609, 200000] if ctx.thorough else [65536, 196608, 196610]):
@@ -61,7 +61,7 @@ def check(ctx):
         lines.append("Codec hexu16 %s" % fmt(hexenc(le[::-1])))
     edge = [0, 1, 0x7f, 0x80, 0xff, 0x100, 0xffff, 0x10000, 0x7fffffff, 0x80000000, 0xffffffff, 0x100000000, 0x0123456789abcdef, 0xfedcba9876543210, 2**63 - 1, 2**63, 2**64 - 1]
     for w, name in ((4, "32"), (8, "64")):
-        vals = [e & (2 ** (8 * w) - 1) for e in edge] + [rng.getrandbits(8 * w) for _ in range(600 if ctx.thorough else 150)]
+        vals = [e & (2 ** (8 * w) - 1) for e in edge] + [rng.getrandbits(8 * w) for _ in range(5000 if ctx.thorough else 150)]
         for v in vals:
             le = list(v.to_bytes(w, "little"))
             lines.append("Codec u%shex %s" % (name, fmt(le)))
